@@ -103,6 +103,7 @@ def run(ctx):
     # coverage audit (tools/COVERAGE_AUDIT.md): fixed cases reaching every input dimension
     audit = ([(c, ["audit:names"]) for c in TF.names_cases("C11")] + [(c, ["audit:shapes"]) for c in TF.shape_cases("C11")]
              + [(c, ["audit:flags"]) for c in TF.flag_cases("C11")] + TF.position_cases(ctx, "C11")
+             + [(c, ["audit:legacy-stores"]) for c in TF.legacy_cases("C11")]
              + [(c, ["audit:oracle-only"]) for c in TF.oracle_only_cases("C11")])
     for case, notes in audit:
         case = copy.deepcopy(case)
@@ -113,7 +114,7 @@ def run(ctx):
         finally:
             S.close()
     TF.run_observations(ctx, "C11")  # unjudged inputs, recorded only
-    for case in TF.staging_cases():
+    for case in TF.staging_cases() + TF.mixedfs_cases():
         problems, dims, _rounds = TF.run_staging(ctx, case)
         ctx.case(case, True)
         ctx.count("audit:staging")
@@ -205,7 +206,7 @@ def run(ctx):
 
 def replay_case(ctx, case):
     case = copy.deepcopy(case)
-    if case.get("stream") == "staging":
+    if case.get("stream") in ("staging", "mixedfs"):
         problems, _dims, rounds = TF.run_staging(ctx, case)
         problems = [p for p in problems if p[0].startswith("C11:")]
         return {"violates": bool(problems), "problems": problems, "outcomes": [str(r["outcome"][:1]) for r in rounds]}
